@@ -18,6 +18,7 @@
   operator layouts and the generated documents are compared with an independent tracker on the source grid.
 -/
 import KernModel.Doc
+import KernProofs.C02Tree
 import KernProofs.Lemmas.ImporterInv
 import KernProofs.Lemmas.SplitJoin
 namespace KM.C02
